@@ -288,7 +288,8 @@ FASTOR_INLINE SIMDVector<int64_t,simd_abi::avx512> operator-(int64_t a, const SI
     return out;
 }
 FASTOR_INLINE SIMDVector<int64_t,simd_abi::avx512> operator-(const SIMDVector<int64_t,simd_abi::avx512> &b) {
-    return _mm512_castps_si512(_mm512_neg_ps(_mm512_castsi512_ps(b.value)));
+    // two's complement negation (the sign-bit flip used for floating point is not integer negation)
+    return SIMDVector<int64_t,simd_abi::avx512>(static_cast<int64_t>(0)) - b;
 }
 
 FASTOR_INLINE SIMDVector<int64_t,simd_abi::avx512> operator*(const SIMDVector<int64_t,simd_abi::avx512> &a, const SIMDVector<int64_t,simd_abi::avx512> &b) {
@@ -644,9 +645,8 @@ FASTOR_INLINE SIMDVector<int64_t,simd_abi::avx> operator-(int64_t a, const SIMDV
     return out;
 }
 FASTOR_INLINE SIMDVector<int64_t,simd_abi::avx> operator-(const SIMDVector<int64_t,simd_abi::avx> &b) {
-    SIMDVector<int64_t,simd_abi::avx> out;
-    out.value = _mm256_castpd_si256(_mm256_neg_pd(_mm256_castsi256_pd(b.value)));
-    return out;
+    // two's complement negation (the sign-bit flip used for floating point is not integer negation)
+    return SIMDVector<int64_t,simd_abi::avx>(static_cast<int64_t>(0)) - b;
 }
 
 FASTOR_INLINE SIMDVector<int64_t,simd_abi::avx> operator*(const SIMDVector<int64_t,simd_abi::avx> &a, const SIMDVector<int64_t,simd_abi::avx> &b) {
@@ -959,9 +959,8 @@ FASTOR_INLINE SIMDVector<int64_t,simd_abi::sse> operator-(int64_t a, const SIMDV
     return out;
 }
 FASTOR_INLINE SIMDVector<int64_t,simd_abi::sse> operator-(const SIMDVector<int64_t,simd_abi::sse> &b) {
-    SIMDVector<int64_t,simd_abi::sse> out;
-    out.value = _mm_castpd_si128(_mm_neg_pd(_mm_castsi128_pd(b.value)));
-    return out;
+    // two's complement negation (the sign-bit flip used for floating point is not integer negation)
+    return SIMDVector<int64_t,simd_abi::sse>(static_cast<int64_t>(0)) - b;
 }
 
 FASTOR_INLINE SIMDVector<int64_t,simd_abi::sse> operator*(const SIMDVector<int64_t,simd_abi::sse> &a, const SIMDVector<int64_t,simd_abi::sse> &b) {
